@@ -14,7 +14,7 @@ chk("C07","exploration",
  "Trusted: the application model's call log and gate monitor. Bounded by the stated header/body alphabets.",
  "bounded-exhaustive enumeration of the request product against a call-log monitor","DESIGN.md 3 C07")
 chk("C08","model_checking",
- "17 hand-written collision scenarios plus every unordered pair of 21 request kinds (231 scenarios; thorough: also every triple of the 13 state-changing kinds): 2-3 real request goroutines on one Actor run under a cooperative scheduler that owns every Database/Transport/callback call and models application locks as blocking resources; all interleavings of 2-thread scenarios (visited-state pruning) and all interleavings with <=2 (quick) / <=3 (thorough) preemptions of 3-thread scenarios are executed on the real code; oracle: no deadlock, all return, final collections equal a sequential order's as multisets, duplicates processed once; plus a supplementary free-running -race pass of the same scenarios. Further: two requests of every multi-valued kind naming the same two local values in opposite order; the oracle is per entry (every collection / object equals that entry in some sequential order; cross-entry atomicity is not promised); sequential redelivery histories: every inbox scenario delivered 2-3 times on one application with the FIRST delivery under every single (thorough: double) fault - in the inbox once, side effects resolved at most once, no collection holds the id twice, forwarded at most once.",
+ "17 hand-written collision scenarios plus every unordered pair of 22 request kinds, one of them an Add naming six objects (253 scenarios; thorough: also every triple of the 13 state-changing kinds): 2-3 real request goroutines on one Actor run under a cooperative scheduler that owns every Database/Transport/callback call and models application locks as blocking resources; all interleavings of 2-thread scenarios (visited-state pruning) and all interleavings with <=2 (quick) / <=3 (thorough) preemptions of 3-thread scenarios are executed on the real code; oracle: no deadlock, all return, final collections equal a sequential order's as multisets, duplicates processed once; plus a supplementary free-running -race pass of the same scenarios. Further: two requests of every multi-valued kind naming the same two local values in opposite order; the oracle is per entry (every collection / object equals that entry in some sequential order; cross-entry atomicity is not promised); sequential redelivery histories: every inbox scenario delivered 2-3 times on one application with the FIRST delivery under every single (thorough: double) fault - in the inbox once, side effects resolved at most once, no collection holds the id twice, forwarded at most once.",
  "Trusted: scheduler, state-key soundness argument (DESIGN 2.1), application locks are mutual exclusion; interleaving granularity = seam calls.",
  "stateless model checking of the implementation: exhaustive schedule enumeration under a controlled scheduler with preemption bounding and state-key pruning","DESIGN.md 3 C08")
 chk("C09","fault_enumeration",
